@@ -52,7 +52,7 @@ var c19Versions = []struct {
 	valid bool
 }{{"", true}, {"1", true}, {"v-1.0", true}, {strings.Repeat("9", 64), true}, {"a_b", false}, {strings.Repeat("9", 65), false}}
 
-var c19Bases = []string{"", "http://h", "https://h:8080", "https://h/a/b/fhir", "http://h.example.org/fhir-r4", "https://h/a%20b/$x", "http://h/", "http://h/fhir//", "http://h/Patient", "http://h/Patient/1"}
+var c19Bases = []string{"", "http://h", "https://h:8080", "https://h/a/b/fhir", "http://h.example.org/fhir-r4", "https://h/a%20b/$x", "http://h/", "http://h/fhir//", "http://h/Patient", "http://h/Patient/1", "https://h.example.org/v1/datasets/my_dataset/fhirStores/my_store/fhir"}
 
 func c19Ptr(t resource.Type) string { return string(t) }
 
@@ -270,7 +270,7 @@ func init() {
 						}
 					}
 				}},
-				{Name: "identity-round-trip", N: len(types), Note: fmt.Sprintf("%d types x 14 ids x 6 versions x 10 bases", len(types)), Run: func(i int, r *core.Rec) {
+				{Name: "identity-round-trip", N: len(types), Note: fmt.Sprintf("%d types x 14 ids x 6 versions x 11 bases", len(types)), Run: func(i int, r *core.Rec) {
 					tn := types[i]
 					for _, id := range c19IDs {
 						for _, ver := range c19Versions {
